@@ -4,5 +4,6 @@ Record tflags := {
   wait_keeps_early : bool;
   result_from_early : bool;
   result_drains : bool;
-  result_default : bool
+  result_default : bool;
+  result_only_when_dead : bool    (* _get_result starts with `if self.is_alive(): return None`: nothing is taken over while the child lives *)
 }.
